@@ -92,7 +92,7 @@ def build(cfg, values=None):
                 for (r, c), v in sorted(d.items()):
                     if r > c:
                         obs.append(('%s-lower-equals-mirror[%d,%d]' % (nm, r, c), v, d.get((c, r), 0)))
-    elif variant in ('split', 'iso'):
+    elif variant in ('split', 'iso', 'history'):
         import compmech.conecyl.modelDB as mdb
         newdb = {}
         for name, e in mdb.db.items():
@@ -124,7 +124,27 @@ def build(cfg, values=None):
                     setattr(cc, nm, V(nm))
                 cc.bc = None
                 return cc
-            if variant == 'split':
+            if variant == 'history':
+                # one ConeCyl object evaluated, re-defined, evaluated again == a fresh object with the final definition
+                before, after = cfg['redefine']
+                cc = cone(model)
+                for nm, val in before.items():
+                    setattr(cc, nm, V(val) if isinstance(val, str) else val)
+                cc._calc_linear_matrices(silent=True)
+                for nm, val in after.items():
+                    setattr(cc, nm, V(val) if isinstance(val, str) else val)
+                cc._calc_linear_matrices(silent=True)
+                fresh = cone(model)
+                for nm, val in after.items():
+                    setattr(fresh, nm, V(val) if isinstance(val, str) else val)
+                fresh._calc_linear_matrices(silent=True)
+                for which in ('k0', 'kG0'):
+                    A, B = getattr(cc, which).todict(), getattr(fresh, which).todict()
+                    for k in sorted(set(A) | set(B)):
+                        obs.append(('%s-after-redefinition-vs-fresh[%d,%d]' % (which, k[0], k[1]), A.get(k, 0), B.get(k, 0)))
+                for nm in ('r1', 'r2', 'L', 'sina', 'cosa'):     # H is input and derived at once: it keeps its first value (observation, DESIGN 9.3)
+                    obs.append(('geometry-after-redefinition-vs-fresh[%s]' % nm, Sym.lift(getattr(cc, nm)), Sym.lift(getattr(fresh, nm))))
+            elif variant == 'split':
                 cc = cone(model)
                 cc._calc_linear_matrices(combined_load_case=None, silent=True)
                 tot = cc.kG0.todict()
@@ -165,6 +185,107 @@ def build(cfg, values=None):
                 Kg = cg.k0.todict()
                 for k in sorted(set(Ki) | set(Kg)):
                     obs.append(('k0-iso-vs-general[%d,%d]' % k, Ki.get(k, 0), Kg.get(k, 0)))
+    elif variant == 'energy':
+        # (vi) the shell part of k0 = Hessian of  1/2 int int eps^T F eps r dx dtheta  with eps the package's own LINEAR strain
+        # field (cfstrain_* of the commons module, odd part in the amplitudes), integrated exactly (vf/trigpoly.py); for a cone the
+        # meridian is cut into the kernel's s sections and r frozen at each section middle (the kernels' own definition)
+        from .. import cysym
+        from ..trigpoly import World, TP
+        rel, nF = (MODELS[model] if model in MODELS else (ISO[model][0], 6))
+        base = ISO[model][1] if model in ISO else model
+        fam, bc = base.split('_')[0], base.split('_')[-1]
+        commons_rel = os.path.join(os.path.dirname(MODELS[base][0]), '%s_commons_%s.pyx' % (fam, bc))
+        W = World(ctx.trig, L, ctx.trig._same)
+        cenv = dict(ctx.kernels.extra_env)
+        cenv.update({'sin': W.sin, 'cos': W.cos, 'cfw0x': (lambda *a: None), 'cfw0t': (lambda *a: None), '_frozen_r': W.frozen_r})
+        C = cysym.Module(os.path.join(REPO, commons_rel), env=cenv,
+                         extra_src_edit=lambda t: t.replace('r = r2 + x*sina', 'r = _frozen_r(r2 + x*sina)')).ns
+        strain = C['cfstrain_sanders' if 'sanders' in base else 'cfstrain_donnell']
+        e_num = nF
+        K = ctx.kernels.get(rel).ns
+        if model in ISO:
+            # isotropic short-cut kernels take (E11, nu, h); the same plate constants as a laminate matrix for the oracle
+            E11, nu, h = V('E11'), V('nu'), V('h')
+            F = np.zeros((6, 6), dtype=object)
+            A_ = E11 * h / (1 - nu * nu)
+            D_ = E11 * h * h * h / (12 * (1 - nu * nu))
+            for off, c_ in ((0, A_), (3, D_)):
+                F[off, off] = F[off + 1, off + 1] = c_
+                F[off, off + 1] = F[off + 1, off] = c_ * nu
+                F[off + 2, off + 2] = c_ * (1 - nu) / 2
+            kargs = (E11, nu, h)
+        else:
+            F = sym_F(ctx, nF)
+            # a laminate: the coupling block B is itself symmetric (the kernels read B12, B16, B26 once)
+            for (i, j) in ((0, 1), (0, 2), (1, 2)):
+                F[j, 3 + i] = F[i, 3 + j]
+                F[3 + i, j] = F[3 + j, i] = F[i, 3 + j]
+            kargs = (F,)
+        cone = cfg.get('cone', True)
+        if cone:
+            alpha = ctx.deg2rad(V('alphadeg'))
+            sina, cosa = ctx.trig.sin(alpha), ctx.trig.cos(alpha)
+            kimpl = upper(todict(K['fk0'](alpha, r2, L, *kargs, m1, m2, n2, s)))
+            nsec = s
+        else:
+            sina, cosa = 0, 1
+            kimpl = upper(todict(K['fk0_cyl'](r2, L, *kargs, m1, m2, n2)))
+            nsec = 1
+        num0, num1, num2 = C['num0'], C['num1'], C['num2']
+        size = num0 + num1 * m1 + num2 * m2 * n2
+        tLA = V('tLA')
+        kor = {}
+        for sec in range(nsec):
+            xa, xb = L * Fraction(sec, nsec), L * Fraction(sec + 1, nsec)
+            R = r2 + sina * ((xa + xb) / 2) if cone else r2
+            W.set_radius(r2, sina, R)
+            B = []
+            for a in range(size):
+                cols = []
+                for sign in (1, -1):
+                    cv = cysym.CArray([0] * size)
+                    cv[a] = sign
+                    es = cysym.CArray([0] * e_num)
+                    strain(cysym.Ptr(cv), sina, cosa, tLA, cysym.Ptr(cysym.CArray([W.x])), cysym.Ptr(cysym.CArray([W.theta])), 1, r2, L, m1, m2, n2,
+                           cysym.Ptr(cysym.CArray([0])), 0, 0, 0, cysym.Ptr(es))
+                    cols.append([e if isinstance(e, TP) else TP.const(e, W) for e in es])
+                B.append([(cols[0][i] - cols[1][i]).scale(Fraction(1, 2)) for i in range(e_num)])
+            # D = F B
+            cache = {}
+            for b in range(size):
+                Db = []
+                for i in range(e_num):
+                    acc = None
+                    for j in range(e_num):
+                        f = F[i, j]
+                        if (isinstance(f, (int, float)) and f == 0) or not B[b][j].t:
+                            continue
+                        term = B[b][j].scale(Sym.lift(f))
+                        acc = term if acc is None else acc + term
+                    Db.append(acc)
+                for a in range(b + 1):
+                    integrand = None
+                    for i in range(e_num):
+                        if Db[i] is None or not B[a][i].t:
+                            continue
+                        term = B[a][i] * Db[i]
+                        integrand = term if integrand is None else integrand + term
+                    if integrand is None:
+                        continue
+                    val = W.integrate(integrand.scale(R), xa, xb, cache)
+                    kor[(a, b)] = (kor[(a, b)][0] + val.re, kor[(a, b)][1] + val.im) if (a, b) in kor else (val.re, val.im)
+        first_double = num0 + num1 * m1
+        for k in sorted(set(kimpl) | set(kor)):
+            re, im = kor.get(k, (Sym.lift(0), Sym.lift(0)))
+            if k[0] == 2 and k[1] >= first_double:
+                # recorded finding: the kernels have no coupling between the tilt amplitude c[2] (cos(theta - thetaLA)) and the
+                # double-series amplitudes, although the first circumferential harmonic is not orthogonal to it
+                obs.append(('k0-tilt-coupling-vs-energy-hessian[%d,%d]' % k, kimpl.get(k, 0), re))
+                obs.append(('k0-tilt-coupling-vs-energy-hessian~known[%d,%d]' % k, kimpl.get(k, 0), 0))
+            else:
+                obs.append(('k0-vs-energy-hessian[%d,%d]' % k, kimpl.get(k, 0), re))
+            if not (isinstance(im, Sym) and im.is_zero()):
+                obs.append(('energy-hessian-real[%d,%d]' % k, im, 0))
     elif variant == 'edges':
         # elastic edge restraints: the part of k0 that ConeCyl._calc_linear_matrices obtains through
         # modelDB.get_linear_matrices -> fk0edges, against the Hessian of the edge-spring energy
@@ -266,23 +387,49 @@ def build(cfg, values=None):
     return obs, assumptions, info
 
 
+def signature(cfg, fam, names):
+    """recorded findings of the energy clause without a closed form: which entries fail and their exact residuals at one fixed point"""
+    if not ((cfg.get('variant') == 'energy' and fam == 'k0-vs-energy-hessian') or (cfg.get('variant') == 'iso' and cfg['mn'][0] >= 3)):
+        return None
+    import hashlib
+    bad, _ = kprop.concrete_replay(build, dict(cfg, seed=4242), {})
+    res = sorted((b[0], '%.12g' % (b[1] - b[2])) for b in bad if b[0].split('[')[0] == fam)
+    return hashlib.sha256(json.dumps([list(cfg['mn']), cfg['s'], names, res]).encode()).hexdigest()[:16]
+
+
 def configs(tier, seed):
     out = []
     quick = tier == 'quick'
     names = sorted(MODELS)
     for q, model in enumerate(names):
-        out.append({'variant': 'cone0', 'model': model, 'mn': (1, 1, 1), 's': 1 + (q + seed) % 2, 'group': '(i) cone(0)=cylinder:%s' % model, 'm': 1, 'n': 1, 'timeout_ms': 180000})
-        out.append({'variant': 'mirror', 'model': model, 'mn': (1, 1, 1), 's': 1, 'group': '(iv) lower=mirror:%s' % model, 'm': 1, 'n': 1, 'timeout_ms': 180000})
+        out.append({'variant': 'cone0', 'model': model, 'mn': (2, 2, 1), 's': 1 + (q + seed) % 2, 'group': '(i) cone(0)=cylinder:%s' % model, 'm': 2, 'n': 1, 'timeout_ms': 180000})
+        out.append({'variant': 'mirror', 'model': model, 'mn': (2, 2, 1), 's': 1, 'group': '(iv) lower=mirror:%s' % model, 'm': 2, 'n': 1, 'timeout_ms': 180000})
         if not quick:
             out.append({'variant': 'cone0', 'model': model, 'mn': (2, 2, 2), 's': 2, 'group': '(i) cone(0)=cylinder:%s' % model, 'm': 2, 'n': 2, 'timeout_ms': 600000})
             out.append({'variant': 'mirror', 'model': model, 'mn': (2, 1, 2), 's': 2, 'group': '(iv) lower=mirror:%s' % model, 'm': 2, 'n': 2, 'timeout_ms': 600000})
             out.append({'variant': 'cone0', 'model': model, 'mn': (3, 2, 3), 's': 1, 'group': '(i) cone(0)=cylinder:%s' % model, 'm': 3, 'n': 3, 'timeout_ms': 900000})
     for model in (['clpt_donnell_bc1', 'fsdt_donnell_bc1', 'clpt_sanders_bc2'] if quick else names):
-        out.append({'variant': 'split', 'model': model, 'mn': (1, 1, 1), 's': 1, 'cone': True, 'group': '(ii) kG0 split/homogeneous:%s' % model, 'm': 1, 'n': 1, 'timeout_ms': 180000})
-        out.append({'variant': 'split', 'model': model, 'mn': (1, 1, 1), 's': 1, 'cone': False, 'group': '(ii) kG0 split/homogeneous (cylinder):%s' % model, 'm': 1, 'n': 1, 'timeout_ms': 180000})
+        out.append({'variant': 'split', 'model': model, 'mn': (2, 2, 1), 's': 1, 'cone': True, 'group': '(ii) kG0 split/homogeneous:%s' % model, 'm': 2, 'n': 1, 'timeout_ms': 180000})
+        out.append({'variant': 'split', 'model': model, 'mn': (2, 2, 1), 's': 1, 'cone': False, 'group': '(ii) kG0 split/homogeneous (cylinder):%s' % model, 'm': 2, 'n': 1, 'timeout_ms': 180000})
     for model in ISO:
-        out.append({'variant': 'iso', 'model': model, 'mn': (1, 1, 1), 's': 1, 'cone': True, 'group': '(iii) iso=general:%s' % model, 'm': 1, 'n': 1, 'timeout_ms': 180000})
-        out.append({'variant': 'iso', 'model': model, 'mn': (1, 1, 1), 's': 1, 'cone': False, 'group': '(iii) iso=general (cylinder):%s' % model, 'm': 1, 'n': 1, 'timeout_ms': 180000})
+        out.append({'variant': 'iso', 'model': model, 'mn': (3, 1, 1), 's': 1, 'cone': True, 'group': '(iii) iso=general:%s:m1=3' % model, 'm': 3, 'n': 1, 'timeout_ms': 180000})
+        out.append({'variant': 'iso', 'model': model, 'mn': (3, 1, 1), 's': 1, 'cone': False, 'group': '(iii) iso=general (cylinder):%s:m1=3' % model, 'm': 3, 'n': 1, 'timeout_ms': 180000})
+        out.append({'variant': 'iso', 'model': model, 'mn': (2, 2, 1), 's': 1, 'cone': True, 'group': '(iii) iso=general:%s' % model, 'm': 2, 'n': 1, 'timeout_ms': 180000})
+        out.append({'variant': 'iso', 'model': model, 'mn': (2, 2, 1), 's': 1, 'cone': False, 'group': '(iii) iso=general (cylinder):%s' % model, 'm': 2, 'n': 1, 'timeout_ms': 180000})
+    # (vi) shell part of k0 against the Hessian of the strain energy of the package's own linear strain field
+    emodels = [m for m in sorted(MODELS) + sorted(ISO) if m != 'fsdt_sanders_bcn']
+    for model in (['clpt_donnell_bc1', 'clpt_donnell_bc4', 'clpt_sanders_bc1', 'iso_clpt_donnell_bc3', 'fsdt_donnell_bc1'] if quick else emodels):
+        for cone, s_ in (((False, 1), (True, 1)) if quick else ((False, 1), (True, 1), (True, 2))):
+            out.append({'variant': 'energy', 'model': model, 'mn': (2, 2, 1) if quick else (2, 2, 2), 's': s_, 'cone': cone,
+                        'group': '(vi) k0 = energy Hessian:%s:%s' % (model, ('cone-s%d' % s_) if cone else 'cylinder'), 'm': 2, 'n': 1, 'timeout_ms': 600000})
+        if not quick:
+            out.append({'variant': 'energy', 'model': model, 'mn': (3, 3, 1), 's': 1, 'cone': True, 'group': '(vi) k0 = energy Hessian:%s:cone-s1-331' % model, 'm': 3, 'n': 1, 'timeout_ms': 900000})
+    # (vii) re-definition of one ConeCyl object between two evaluations (cylinder -> cone, cone -> cylinder, other radius / length)
+    for model in (['clpt_donnell_bc1', 'fsdt_donnell_bc1'] if quick else names):
+        for tag, red in (('cylinder-to-cone', ({'alphadeg': 0.}, {'alphadeg': 'alphadeg'})), ('cone-to-cylinder', ({'alphadeg': 'alphadeg'}, {'alphadeg': 0.})),
+                         ('other-radius-and-length', ({'r2': 'r2_before', 'L': 'L_before'}, {'r2': 'r2', 'L': 'L'})),
+                         ('other-loads', ({'Fc': 'Fc_before', 'P': 'P_before', 'T': 'T_before'}, {'Fc': 'Fc', 'P': 'P', 'T': 'T'}))):
+            out.append({'variant': 'history', 'model': model, 'mn': (2, 2, 1), 's': 1, 'cone': True, 'redefine': red, 'group': '(vii) re-definition %s:%s' % (tag, model), 'm': 1, 'n': 1, 'timeout_ms': 180000})
     # (v) elastic edge restraints through get_linear_matrices / fk0edges against the edge-spring energy
     import compmech.conecyl.modelDB as mdb
     enames = [m for m in sorted(MODELS) + sorted(ISO) if m in mdb.db and hasattr(mdb.db[m]['linear'], 'fk0edges') or (m in ISO and m in mdb.db)]
@@ -321,7 +468,7 @@ def main():
                    'edge restraints for n2 > 1 (4-node circumferential rule)',
                    'bcn clpt/fsdt Donnell modules (not importable in this build) and the geier1997 / shadmehri2012 models']
     res = pmap(kprop.job, [(__name__, c) for c in cf])
-    kprop.handle(run, res, build, 'entries differ between the two descriptions')
+    kprop.handle(run, res, build, 'entries differ between the two descriptions', signature=signature)
     # compiled-kernel replay of cone(0) vs cylinder for every model (independent of the symbolic route, floats)
     run.extra['compiled_cone0_vs_cylinder'] = compiled_cone0()
     return run.finish()
